@@ -7,7 +7,7 @@ by /verif/replay.  Both produce a list of observations, one per step; an abnorma
 import z3
 
 from engine import (Agg, Cell, Ref, RcH, PyFn, RustPanic, Deadlock, Unsupported, Budget, Infeasible, is_sym,
-                    Some, NONE, UNIT)
+                    Some, NONE, UNIT, UNINIT)
 import models
 
 DIRECTED = ('digraph', 'sync_digraph')
@@ -52,6 +52,7 @@ class Driver:
             n = self.node_call('new', [self.val(k), self.val(v)])
             self.nodes.append(Cell(n))
             self.keys.append(self.val(k))
+        self.boxes = [c.v.f[0].box for c in self.nodes]
 
     def key_of(self, noderef):
         return self.ex.deref(self.node_call('key', [noderef]))
@@ -422,7 +423,7 @@ class Driver:
         """index of the harness node that is the same allocation as `node` (None if none)"""
         box = node.f[0].box
         for i, c in enumerate(self.nodes):
-            if c.v is not None and c.v.f[0].box is box:
+            if c.v is not None and c.v is not UNINIT and c.v.f[0].box is box:
                 return i
         return None
 
@@ -591,6 +592,52 @@ class Driver:
         dump = self.graph_members_dump(g2)
         self.ex.drop(g2.v)
         return {'result': 'ok', 'len': n, 'members': dump, 'cbor_same': True}
+
+    # ---- ownership (C19) ------------------------------------------------------------------
+    def op_drop(self, i):
+        v = self.nodes[i].v
+        self.nodes[i].v = None
+        self.ex.drop(v)
+        return 'ok'
+
+    def op_drop_graph(self):
+        v = self.graph.v
+        self.graph = None
+        self.ex.drop(v)
+        return 'ok'
+
+    def op_drop_kept(self, name):
+        c = self.kept.pop(name)
+        self.ex.drop(c.v)
+        return 'ok'
+
+    def op_drops(self):
+        return [b.dropped for b in self.boxes]
+
+    def _nodes_in(self, v):
+        if isinstance(v, Agg):
+            if v.kind.endswith('node::Node'):
+                return [v]
+            out = []
+            for x in v.f:
+                out += self._nodes_in(x)
+            return out
+        return []
+
+    def op_use_kept(self, name):
+        out = []
+        for n in self._nodes_in(self.kept[name].v):
+            r = Ref(Cell(n))
+            if self.directed:
+                deg = self.node_call('out_degree', [r]) + self.node_call('in_degree', [r])
+            else:
+                deg = self.node_call('degree', [r])
+            out.append([self.key_of(r), self.value_of(r), deg])
+        return out
+
+    def leak_report(self):
+        """(strong, weak) counts of every node allocation; all zero once every handle is gone"""
+        return [[b.strong, b.weak] for b in self.boxes]
 
     def err_name(self, e):
         vs = self.ex.ix.enums.get(('error', 'Error'))
